@@ -143,8 +143,8 @@ class RL4COLitModule(LightningModule, metaclass=abc.ABCMeta):
             generate_default_datasets(data_dir=self.data_cfg["data_dir"])
 
         log.info("Setting up datasets")
-        self.train_dataset = self.wrap_dataset(
-            self.env.dataset(self.data_cfg["train_data_size"], phase="train")
+        self.train_dataset = self.env.dataset(
+            self.data_cfg["train_data_size"], phase="train"
         )
         self.val_dataset = self.env.dataset(self.data_cfg["val_data_size"], phase="val")
         self.test_dataset = self.env.dataset(
@@ -153,6 +153,8 @@ class RL4COLitModule(LightningModule, metaclass=abc.ABCMeta):
         self.dataloader_names = None
         self.setup_loggers()
         self.post_setup_hook()
+        # wrap only after the hook: a baseline must be set up before it can wrap the dataset
+        self.train_dataset = self.wrap_dataset(self.train_dataset)
 
     def setup_loggers(self):
         """Log all hyperparameters except those in `nn.Module`"""
